@@ -23,7 +23,7 @@ from ..ser import enc_charge
 
 ID = "C13"
 LEVEL = "proof"
-PROPS_MODULE = "SymmModel.Props.C13"
+PROPS_MODULE = "SymmModel.Props.C13All"
 _T = "SymmModel.C13."
 THEOREMS = [
     _T + n
@@ -51,12 +51,23 @@ THEOREMS = [
         "absorb_same_product_sum",
         "bondChargemap_perm",
     ]
+] + [
+    # array-level clauses (absorb options agree; squared error = discarded weight), proved with the
+    # decomposition lemmas under explicit kernel contracts
+    "SymmModel.C11." + n
+    for n in ["absorb_products_agree", "absorb_products_agree_truncated", "truncation_error_block",
+              "truncated_block_entries", "truncation_error", "applyCounts_valid"]
 ]
 LEAN_FILES = [
     "SymmModel.Model.Trunc",
     "SymmModel.Proofs.TruncLemmas",
     "SymmModel.Props.C13",
     "SymmModel.Driver.TruncH",
+    "SymmModel.Props.C13All",
+    "SymmModel.Props.C11b",
+    "SymmModel.Proofs.LinalgMore4",
+    "SymmModel.Proofs.LinalgMore5",
+    "SymmModel.Proofs.LinalgMore6",
 ]
 RULE = (
     "random abelian/fermionic matrices over Z2, U1, Z2Z2, U1U1, Z4(generic) with 1..6 stored blocks "
